@@ -11,7 +11,7 @@ INVS = ["NonNegW", "SumsToOne", "Marginals", "Convex", "ZeroCov", "Single", "Mon
 
 
 def cfg(n, small, sample=None):
-    s = "SPECIFICATION Spec\nCONSTANTS\n  N = %d\n  Sample %s\n" % (n, "<- MCNoSample" if not sample else "<- MCSample")
+    s = "SPECIFICATION Spec\nCONSTANTS\n  N = %d\n  Sample %s\n  SampOut <- %s\n  SampCov <- %s\n" % (n, "<- MCNoSample" if not sample else "<- MCSample", "MCNone" if not sample else "MCSampOut", "MCNone" if not sample else "MCSampCov")
     s += "  CovGrid <- %s\n  OutGrid <- %s\n  BaseGrid <- %s\n  Patterns <- %s\n" % (("MCCovSmall", "MCOutSmall", "MCBaseSmall", "MCPatSmall") if small else ("MCCov", "MCOut", "MCBase", "MCPat"))
     # (with five programs the Monotone theorem - every coverage raised to every grid value, 32 combinations each - costs minutes: it is
     # checked up to four programs; the monotone pairs of real outcomes are judged by the trace module for every N)
@@ -69,9 +69,13 @@ def run(prop, tier):
     for n, small, sample in plan:
         gen = None
         if sample:
-            gen = {"MCCovout.tla": open(C.SPEC + "/MCCovout.tla").read().replace("====", "MCSample == <<%d, %d>>\n====" % sample)}
+            rng_ = np.random.default_rng(C.seed() * 1000 + n)
+            outs_ = ["<<0,1>>", "<<1,5>>", "<<9,10>>"] if small else ["<<0,1>>", "<<1,5>>", "<<1,2>>", "<<9,10>>"]
+            covs_ = ["<<0,1>>", "<<1,4>>", "<<3,4>>", "<<1,1>>"] if small else ["<<0,1>>", "<<1,4>>", "<<1,2>>", "<<3,4>>", "<<1,1>>"]
+            gen = {"MCCovout.tla": open(C.SPEC + "/MCCovout.tla").read().replace("====", "MCSample == <<%d, %d>>\nMCSampOut == %s\nMCSampCov == %s\n====" % (
+                sample[0], sample[1], C.sample_vectors(rng_, outs_, n, sample[0]), C.sample_vectors(rng_, covs_, n, sample[1])))}
             cov["exhaustive"] = False
-            cov["exhaustive_note"] = "1-3 programs (4 in the thorough tier) exhaustive over the grids; 4 / 5 programs on vectors sampled by TLC (RandomSubset)"
+            cov["exhaustive_note"] = "1-3 programs (4 in the thorough tier) exhaustive over the grids; 4 / 5 programs on vectors drawn with the harness's seeded generator"
         r, cases = C.enumerate_cases(["Rat", "Covout", "MCCovout"], "MCCovout", cfg(n, small, sample), timeout=3000 if thorough else 1500, generated=gen)
         cov["states"] += r.distinct
         cov["transitions"] += r.generated
